@@ -30,7 +30,7 @@ def seed():
 class Ctx:
     """One check run: work dir, counters, samples, violations."""
 
-    def __init__(self, pid, tier):
+    def __init__(self, pid, tier, keep_replays=False):
         self.pid = pid
         self.tier = tier
         self.seed = seed()
@@ -39,7 +39,7 @@ class Ctx:
         shutil.rmtree(self.work, ignore_errors=True)
         os.makedirs(self.work)
         import glob
-        for f in glob.glob(os.path.join(VERIF, "replays", pid + "-*.json")):   # replays of earlier runs of this check
+        for f in ([] if keep_replays else glob.glob(os.path.join(VERIF, "replays", pid + "-*.json"))):   # replays of earlier runs of this check
             try:
                 os.remove(f)
             except OSError:
@@ -376,10 +376,14 @@ def main_wrap(pid, fn):
     ap.add_argument("--keep", action="store_true")
     a = ap.parse_args(sys.argv[2:])
     tier = a.tier if a.tier in ("quick", "thorough") else "quick"
-    ctx = Ctx(pid, tier)
+    ctx = Ctx(pid, tier, keep_replays=bool(a.replay))
     ctx.replay = a.replay
     try:
-        rc = fn(ctx)
+        if a.replay:
+            import replay
+            rc = replay.run(ctx, a.replay)
+        else:
+            rc = fn(ctx)
     except Inconclusive as e:
         print("INCONCLUSIVE %s: %s" % (pid, e))
         rc = 2
